@@ -10,6 +10,15 @@ BASE = ("cd /repo && env -u TRACKLIB_VERIF_TRACE /venv/bin/python -m pytest -ra 
 
 # pid -> (module(s), technique, level text, level note, design ref)
 CHECKS = {
+    "C09": ("Viterbi", "TLA+ model of HMM decoding: brute-force optimum over the product of candidate lists (definition), Bellman "
+            "recursion and a transcription of the TAB_VAL/TAB_MRK forward-backward algorithm, checked by TLC on every small "
+            "model; decodings recorded from HMM.estimate (likelihood and log mode) are judged by ViterbiTrace.tla (code->spec)",
+            "TLC checks Bellman = brute force and acceptance of the transcribed algorithm for all models with T <= 3, 1..2 states "
+            "per epoch over likelihoods {0, 1/2, 1}; the real HMM is run in both modes on that family (largest size class "
+            "strided) and on random models to T = 8, S = 5; each recorded decoding must use candidates of its epoch, attain "
+            "the brute-force maximum likelihood and record that optimum as the last cost.",
+            "TLC 1.8; likelihoods 0 or 2^-c so that costs are exact integers (unit ln 2, one zero = -ln 1e-300); sequences "
+            "of likelihood 0 are all accepted when no sequence has positive likelihood", "5/C09"),
     "C20": ("Projection", "TLA+ exact nearest-point definition (Geo2D.tla fractions) + transcription of proj_segment / proj_polyligne "
             "case analysis checked by TLC (pinned vertical branch refuted = known finding); results recorded from proj_segment, "
             "proj_polyligne and mapOnTrack are judged by ProjectionTrace.tla (code->spec trace validation)",
